@@ -212,6 +212,10 @@ func init() {
 		// what an encoder emits must not depend on which targets ran before it: no generator writes into the model they share
 		wireModelFrame(w, r, "C01", frameWire, nil, map[string]bool{"Field": true, "MatchPair": true, "Packet": true}, "a generator rewrites the part of the shared model the encoders are derived from: what the targets generated after it put on the wire depends on which targets ran before")
 		attributeIsolation(w, r, "C01")
+		// round 9: the width a member is encoded with is the width of the type written for it - the routines that turn a declaration
+		// into a field map a written type to the same attribute (one of them consulting the MetaData table by the member's *name*
+		// gives `u64 Price` the width of an unrelated entry called Price)
+		r.refile("C08/type-mapping-siblings", "C01/type-mapping-siblings", func(sr *Report) { c08TypeMappingSiblings(w, sr) }, nil)
 		wireFieldOrderEmission(wc, r, "C01", map[string]bool{"enc": true})
 		wireAssumptions(r)
 	})
